@@ -266,6 +266,7 @@ func runC04(c *kit.Ctx) {
 	// ---- R3 ---------------------------------------------------------------
 	c.StartRule("R3", "every received result error reaches handleResultError with the call's region and connection", 3)
 	handbackErrorUnchanged(c)
+	regionExceptionUnchanged(c)
 	hreName := kit.M("", "*client", "handleResultError")
 	checkHandled := func(fn *ssa.Function, rpcV, rcV ssa.Value, pos token.Pos, what string) {
 		good := false
@@ -356,6 +357,7 @@ func runC04(c *kit.Ctx) {
 	}
 
 	failedRegionAlwaysMarked(c)
+	lookupContexts(c)
 	// a failed establishment attempt re-resolves the location before the next one
 	{
 		var addrAlloc *ssa.Alloc
@@ -384,6 +386,8 @@ func runC04(c *kit.Ctx) {
 
 	// a region replacing a moved/split/merged one becomes visible only once it is marked unavailable
 	markBeforePublish(c)
+
+	embed(c, "R6", "a failing connection fails every request on it with a connection-level error, so that it is retried elsewhere (the rules of C03, run as one rule here)", 30, runC03)
 
 	// ---- R5 ---------------------------------------------------------------
 	c.StartRule("R5", "TableNotFound is not retried", 2)
